@@ -224,6 +224,12 @@ func WOp(width int, op string, args ...*Term) *Term {
 				if b := new(big.Int).Sub(pow2(bl), bigOne); b.Cmp(hi) < 0 {
 					hi = b
 				}
+			case "mul64.hi":
+				if len(his) == 2 {
+					if b := new(big.Int).Rsh(new(big.Int).Mul(his[0], his[1]), 64); b.Cmp(hi) < 0 {
+						hi = b
+					}
+				}
 			case "shr":
 				if len(args) == 2 {
 					if k, ok := args[1].IsConst(); ok && k.IsInt64() && k.Int64() >= 0 && k.Int64() < 4096 {
